@@ -23,12 +23,13 @@ THREAD_ROUNDS = dict(quick=48, thorough=2000)
 ANCHORS = ['numdifftools.finite_difference:LogRule.rule',
            'numdifftools.step_generators:MinStepGenerator.step_generator_function',
            'numdifftools.core:Derivative.set_richardson_rule', 'numdifftools.core:Derivative._get_steps',
-           'numdifftools.core:Derivative._set_derivative',
-           'numdifftools.finite_difference:JacobianDifferenceFunctions.increments',
-           'numdifftools.finite_difference:JacobianDifferenceFunctions._central',
-           'numdifftools.finite_difference:JacobianDifferenceFunctions._forward',
-           'numdifftools.finite_difference:HessianDifferenceFunctions._central_even',
-           'numdifftools.finite_difference:HessdiagDifferenceFunctions._central_even']
+           'numdifftools.core:Derivative._set_derivative']
+# also watched for yield injection, but reached only if the shard's pool draws the matching class and method (no reach requirement)
+ALSO_WATCHED = ['numdifftools.finite_difference:JacobianDifferenceFunctions.increments',
+                'numdifftools.finite_difference:JacobianDifferenceFunctions._central',
+                'numdifftools.finite_difference:JacobianDifferenceFunctions._forward',
+                'numdifftools.finite_difference:HessianDifferenceFunctions._central_even',
+                'numdifftools.finite_difference:HessdiagDifferenceFunctions._central_even']
 MIN_COUNTERS = dict(quick={'history_calls_compared': 1500, 'histories': 300, 'warm_cache_calls': 250,
                            'cold_cache_calls': 100, 'shared_generator_calls': 100, 'mutate_restore_ops': 100,
                            'threaded_calls_compared': 1200, 'thread_rounds': 40,
@@ -242,7 +243,7 @@ def setup(ctx, mon):
     _S['mon'] = mon
     _S['ctr'] = itertools.count()
     _S['log'] = []
-    for a in ANCHORS:
+    for a in ANCHORS + ALSO_WATCHED:
         mon.watch(a, lines=True)
 
 
